@@ -3,9 +3,17 @@
     model's observable outcome equals the abstract specification
     (Spec/StackSpec.v).  The matrix IS the property's quantifier, so the sweep
     (kernel-checked computation, lifted with [forallb_forall]) is a proof of the
-    statement for the model, bounds included in the statement. *)
+    statement for the model, bounds included in the statement.
+    Beyond the matrix, for stacks of ANY depth and any mix of plain and sharded
+    levels and for arbitrary environment responses: a lookup walks the itinerary
+    "write cache, then the read-only caches in registration order" (a sharded
+    level: primary shard, then - after a miss only - the secondary), opens nothing
+    after its first hit, returns that first handle, and reports a miss only after
+    walking the whole itinerary without one ([C13_lookup_order_any_depth]); a
+    touch walks the same itinerary, stops at the first copy whose access time it
+    could set, and tries no other ([C13_touch_order_any_depth]). *)
 From Coq Require Import List NArith ZArith String Bool.
-From Kismet Require Import Ops.Ops Spec.StackSpec Proofs.StackSweep.
+From Kismet Require Import Pure.Hash FS.Fs FS.Prog Spec.Wp Ops.Ops Spec.StackSpec Proofs.StackSweep Proofs.LookupOrder Proofs.PutNeverOverwrites.
 Import ListNotations.
 
 (** The whole matrix: every configuration, every operation. *)
@@ -48,3 +56,52 @@ Theorem C13_promote_copies : forall rv rs p,
   o_write (spec true None (Some rv :: rs) CkNone (AGou Promote p)) = Some rv /\
   o_res (spec true None (Some rv :: rs) CkNone (AGou Promote p)) = RValue rv.
 Proof. intros. unfold spec. cbn. split; reflexivity. Qed.
+
+(** Lookup order for stacks of any depth, all responses (no checker configured). *)
+Theorem C13_lookup_order_any_depth : forall cfg k, s_checker cfg = None ->
+  wp (lo_step false) (cache_get cfg k)
+     (fun r s' => match r with
+                  | Ok (Some fd) => snd s' = Some fd
+                  | Ok None => s' = ([], None)
+                  | _ => True
+                  end) (itinerary cfg k, None).
+Proof. exact lookup_order_no_checker. Qed.
+
+Theorem C13_lookup_order_on_every_run : forall cfg k w o, s_checker cfg = None ->
+  let '(r, _, _, tr) := run (cache_get cfg k) w o in
+  exists s', mon_run (lo_step false) (itinerary cfg k, None) tr = Some s' /\
+    match r with Ok (Some fd) => snd s' = Some fd | Ok None => s' = ([], None) | _ => True end.
+Proof. intros cfg k w o H. exact (lookup_order_run cfg k w o H). Qed.
+
+(** The itinerary and the monitor, spelled out on a four-level stack: plain write
+    cache, then a sharded, a plain and another sharded read-only cache. *)
+Example C13_itinerary_example :
+  let k := mkKey "a"%string 1 2 in
+  let cfg := mkStack 0 (Some (FPlain ["w"%string] 10)) [FSharded ["r0"%string] 3 30; FPlain ["r1"%string] 0; FSharded ["r2"%string] 2 20] None false ["t"%string] in
+  let '(a, b) := shard_ids 1 2 3 in let '(c, d) := shard_ids 1 2 2 in
+  itinerary cfg k =
+    [[["w"; "a"]]; [["r0"; format_id a; "a"]; ["r0"; format_id b; "a"]]; [["r1"; "a"]]; [["r2"; format_id c; "a"]; ["r2"; format_id d; "a"]]]%string /\
+  (* an open out of order is refused, an open after a hit is refused *)
+  lo_step false (itinerary cfg k, None) (EvCall (COpen ["r1"; "a"]%string RDONLY) (RFd 7)) = None /\
+  lo_step false ([[["r1"; "a"]]]%string, Some 5%nat) (EvCall (COpen ["r1"; "a"]%string RDONLY) (RErr ENOENT)) = None /\
+  (* a hit in the primary shard skips the secondary *)
+  lo_step false ([[["r0"; "x"; "a"]; ["r0"; "y"; "a"]]; [["r1"; "a"]]]%string, None) (EvCall (COpen ["r0"; "x"; "a"]%string RDONLY) (RFd 7)) = Some ([[["r1"; "a"]]]%string, Some 7%nat).
+Proof. vm_compute. repeat split. Qed.
+
+(** touch: same itinerary; once a copy was marked (an accepted futimens that sets
+    the access time only) no further path is opened; "absent" means every path of
+    the itinerary was tried. *)
+Theorem C13_touch_order_any_depth : forall cfg k,
+  wp to_step (cache_touch cfg k)
+     (fun r s' => match r with Ok true => snd s' = true | Ok false => s' = ([], false) | _ => True end)
+     (flat_itinerary cfg k, false).
+Proof. exact touch_order. Qed.
+
+Theorem C13_touch_monitor_meaning : forall p q fd t,
+  to_step ([p; q], true) (EvCall (COpen p RDONLY) (RFd fd)) = None /\
+  to_step ([p; q], false) (EvCall (CFutimens fd (Some t) None) ROk) = Some ([p; q], true) /\
+  (p <> q -> to_step ([p; q], false) (EvCall (COpen q RDONLY) (RFd fd)) = None).
+Proof.
+  intros p q fd t. repeat split. intros H. cbn [to_step fst snd].
+  destruct (path_eqb q p) eqn:E; [apply path_eqb_eq in E; congruence|reflexivity].
+Qed.
